@@ -13,6 +13,7 @@ from .. import lean
 from ..rt import engine
 
 STREAMS = ["daemon-processes"]
+REGENERATE_SRC = True
 RULE = ("real child processes `python -m cobald.daemon <config>` with generated YAML (!Tag and __type__ elements, "
         "optional logging section) and Python configurations (pipelines built with >>), pipeline lengths 1..6, services "
         "of all three flavours, instrumented classes that append to an event file (constructed-with-running-loop, run "
